@@ -29,7 +29,8 @@
 (*         Cookie / Set-Cookie accumulate                                  *)
 (*   Del   clear the slot / all cookies / every ordinary value of the key; *)
 (*         the ORDER OF EVERYTHING ELSE IS KEPT                            *)
-(* plus the typed setters.  Observers: Peek, PeekAll, All (and PeekKeys,   *)
+(* plus the typed setters, and Load: the object is first filled by READING  *)
+(* a message from the wire (every field line acts like Add).  Observers: Peek, PeekAll, All (and PeekKeys,   *)
 (* Len = projections of All), typed getters, cookies, and ReadBack = what  *)
 (* a peer reads after Write (non-framing fields in order).                 *)
 (***************************************************************************)
@@ -45,7 +46,7 @@ vars == <<st, op, cfg>>
 Kind == cfg.kind            \* "req" or "resp"
 Norm == cfg.norm            \* TRUE: header names are normalised
 Spellings == cfg.sp         \* spellings of names used by Set/Add/Del
-Typed == cfg.typed          \* enabled groups of typed setters: subset of {"cl", "framing", "cookie", "slot"}
+Typed == cfg.typed          \* enabled groups: subset of {"cl", "framing", "cookie", "slot", "load", "loadfirst"}
 Ops == cfg.ops              \* enabled generic operations: subset of {"Set", "Add", "Del"}
 OrdVals == cfg.ov           \* values used for ordinary names
 
@@ -251,6 +252,23 @@ SetUserAgent(v) == Kind = "req" /\ st' = [st EXCEPT !.ua = v] /\ op' = Op("SetUs
 SetServer(v) == Kind = "resp" /\ st' = [st EXCEPT !.server = v] /\ op' = Op("SetServer", "", v)
 SetContentEncoding(v) == Kind = "resp" /\ st' = [st EXCEPT !.ce = v] /\ op' = Op("SetContentEncoding", "", v)
 
+\* ---- a header that was READ FROM THE WIRE (or copied from such a header)
+\* The field lines of the message the header object is loaded from.  Parsing a line has the
+\* effect of Add: special names go to their slots, Cookie / Set-Cookie accumulate, the rest
+\* is appended in order.  (One Cookie line, as RFC 6265 5.4 demands of a client; a
+\* Content-Length keeps the message framing out of the picture.)
+Wire(w) ==
+  IF Kind = "req"
+  THEN << <<"Host", "h1">>, <<"Content-Length", "5">>, <<"X-A", "v1">>, <<"Cookie", "j=2; k=3">>,
+          <<"Content-Type", "t1">>, <<"X-B", "v1">>, <<"X-A", "v2">>, <<"User-Agent", "u1">> >>
+  ELSE << <<"Content-Length", "5">>, <<"Server", "s1">>, <<"X-A", "v1">>, <<"Set-Cookie", "k=1; path=/">>,
+          <<"Content-Type", "t1">>, <<"Set-Cookie", "j=2">>, <<"X-B", "v1">>, <<"X-A", "v2">>,
+          <<"Content-Encoding", "gzip">>, <<"Cookie", "k=1">> >>
+RECURSIVE ParseLines(_, _)
+ParseLines(s, ls) == IF ls = <<>> THEN s ELSE ParseLines(AddF(s, ls[1][1], ls[1][2]), Tail(ls))
+\* Load is only possible as the very first operation on the object
+Load(w) == op.o = "Init" /\ st' = ParseLines(Empty, Wire(w)) /\ op' = Op("Load", "", w)
+
 \* request cookies: name/value; response cookies: name / whole Set-Cookie value
 CookieArgs == IF Kind = "req" THEN {<<"k", "9">>, <<"j", "8">>} ELSE {<<"k", "k=9">>, <<"j", "j=8; path=/">>}
 
@@ -267,11 +285,15 @@ TypedOps == \/ /\ ("cl" \in Typed \/ "framing" \in Typed)
                /\ \/ SetContentType("t1")
                   \/ SetHost("h1") \/ SetUserAgent("u1") \/ SetServer("s1") \/ SetContentEncoding("gzip")
 
-Step == \/ \E sp \in Spellings :
-             \/ \E v \in ValsFor(sp) : \/ ("Set" \in Ops /\ Set(sp, v))
-                                       \/ ("Add" \in Ops /\ Add(sp, v))
-             \/ ("Del" \in Ops /\ Del(sp))
-        \/ TypedOps
+\* Typed group "load": the object may first be loaded from the wire; "loadfirst": it always is
+Step == \/ /\ ("loadfirst" \notin Typed \/ op.o # "Init")
+           /\ \/ \E sp \in Spellings :
+                   \/ \E v \in ValsFor(sp) : \/ ("Set" \in Ops /\ Set(sp, v))
+                                             \/ ("Add" \in Ops /\ Add(sp, v))
+                   \/ ("Del" \in Ops /\ Del(sp))
+              \/ TypedOps
+        \/ /\ ("load" \in Typed \/ "loadfirst" \in Typed)
+           /\ Load("w1")
 Next == Step /\ UNCHANGED cfg
 
 Spec == Init /\ [][Next]_vars
@@ -311,8 +333,7 @@ Untouched(s, T) == SelectSeq(All(s), LAMBDA f : Canon(f[1]) \notin T)
 \* THE frame condition of the property: an operation on one name never changes the
 \* values, or their order, under another name -- neither per name (PeekAll) nor in the
 \* overall listing (All restricted to the untouched names is unchanged).
-Frame ==
-  LET T == Touched(op') IN
+FrameBody(T) ==
   /\ \A sp \in Spellings : Canon(sp) \notin T => PeekAll(st', sp) = PeekAll(st, sp)
   /\ Untouched(st', T) = Untouched(st, T)
   /\ (op'.o = "Del") => PeekAll(st', op'.k) =      \* (a response falls back to the default Content-Type)
@@ -322,6 +343,8 @@ Frame ==
         /\ Len(PeekAll(st', op'.k)) = MaxOf(1, Len(PeekAll(st, op'.k)))
         /\ Tail(PeekAll(st', op'.k)) = (IF PeekAll(st, op'.k) = <<>> THEN <<>> ELSE Tail(PeekAll(st, op'.k)))
   /\ (op'.o = "Add" /\ ~IsSpecial(op'.k)) => PeekAll(st', op'.k) = Append(PeekAll(st, op'.k), op'.v)
+\* (loading the object from the wire replaces everything)
+Frame == op'.o = "Load" \/ FrameBody(Touched(op'))
 FrameProp == [][Frame]_vars
 
 \* reading back what was written loses nothing but framing fields / trailer-declared fields
